@@ -448,7 +448,7 @@ func baseOf(v ssa.Value) ssa.Value {
 
 func init() {
 	register("C11", &propDef{
-		explain: "Structural rules that make maps finite sorted maps by construction: one canonical boxed form per representation (inhabitant inventory: producers vs type-switch consumers), a three-valued comparator, constant sorted keys at every MakeQuad site (evaluated at analysis time), bulk copies into a fresh storage only from one already-sorted source with everything else going through the search-based Set, Set writing only at the index its search returned, and sibling agreement of representation switches. Observational equivalence with a reference map for all operation sequences is a value property and is not decided; off-by-one errors inside search/shift arithmetic are not covered.",
+		explain: "Structural rules that make maps finite sorted maps by construction: one canonical boxed form per representation (inhabitant inventory: producers vs type-switch consumers), a three-valued comparator, constant sorted keys at every MakeQuad site (evaluated at analysis time), bulk copies into a fresh storage only from one already-sorted source with everything else going through the search-based Set, Set writing only at the index its search returned, and sibling agreement of representation switches. Observational equivalence with a reference map for all operation sequences is a value property and is not decided; off-by-one errors inside search/shift arithmetic are not covered. Also: SmallMap.get calls Cmp on every iteration and decides on nothing else, CompareKeys is Cmp on every path, and the shared C07.R9 keeps the small representation within its capacity.",
 		assume:  []string{"slices.BinarySearchFunc and slices.Insert behave per their contract on a sorted slice", "Cmp is a total order on keys (C12)"},
 		run:     runC11,
 	})
